@@ -73,6 +73,7 @@ func guardSitesOf(p *Prog, fn *ssa.Function) []guardSite {
 			out = append(out, guardSite{fn, name, in, strings.Join(guardSet(in), " && ") + " ## " + orGuardSet(in)})
 		}
 	}
+	out = append(out, rewriteSitesOf(p, fn)...)
 	return out
 }
 
@@ -290,6 +291,31 @@ func ruleNormaliserConsts(p *Prog, r *Report, rule, prop string) {
 		}
 		r.floor(rule, "operations of "+row[0], sites, 10)
 	}
+	// every conditional replacement of a parsed value by a constant, anywhere in the package
+	pk := map[string]bool{}
+	for _, row := range readTable("normaliser_consts.tsv", 4) {
+		if fn := p.Funcs[row[0]]; fn != nil && propListed(row[1], prop) {
+			pk[pkgOfFunc(fn)] = true
+		}
+	}
+	nrw := 0
+	for _, fn := range allModFuncs(p) {
+		if !pk[pkgOfFunc(fn)] || fn.Synthetic != "" {
+			continue
+		}
+		seen := map[string]bool{}
+		for _, gs := range rewriteSitesOf(p, fn) {
+			nrw++
+			k := fnDisplay(fn) + "|" + gs.Name
+			if seen[k] {
+				continue
+			}
+			seen[k] = true
+			r.add(rule, "rewrite-audited|"+k, p.ipos(gs.In), "the conditions under which a parsed value becomes "+gs.Name[len("rewrite:"):]+" in "+fnDisplay(fn)+" are audited (rows in tables/guards.tsv)", have[k],
+				"a parsed value is replaced by a constant under conditions that were never audited: two different device spellings can end up equal")
+		}
+	}
+	r.floor(rule, "conditional constant rewrites in the package", nrw, 7)
 }
 
 // isLogCall: errlog.Info / errlog.Warning / errlog.DoLog (messages; they neither end the run nor change data).
@@ -307,4 +333,102 @@ func isLogCall(in ssa.Instruction) bool {
 		return true
 	}
 	return false
+}
+
+// rewriteSitesOf: places where a value is conditionally replaced by a string constant: a phi
+// (not at a loop header) that merges a string constant with other values.  Name "rewrite:<const>",
+// Sig = the conditions under which the constant is taken.
+// rewriteBools: also report bool flags (dump / flag audit only).
+var rewriteBools = true
+
+func rewriteSitesOf(p *Prog, fn *ssa.Function) []guardSite {
+	var out []guardSite
+	for _, b := range fn.Blocks {
+		if naturalLoopBody(b) != nil {
+			continue
+		}
+		for _, in := range b.Instrs {
+			ph, ok := in.(*ssa.Phi)
+			if !ok {
+				break
+			}
+			isBoolT := false
+			if bt, ok := ph.Type().Underlying().(*types.Basic); ok && bt.Kind() == types.Bool {
+				isBoolT = true
+				if ph.Comment == "&&" || ph.Comment == "||" {
+					continue // the value of a short-circuit expression, not an assignment
+				}
+			}
+			if !isStringType(ph.Type()) && !(isBoolT && rewriteBools) {
+				continue
+			}
+			distinct := map[string]bool{}
+			for _, e := range ph.Edges {
+				if c, isC := e.(*ssa.Const); isC && c.Value != nil {
+					distinct["c"+c.Value.ExactString()] = true
+				} else {
+					distinct["v"] = true
+				}
+			}
+			if len(distinct) < 2 {
+				continue
+			}
+			for i, e := range ph.Edges {
+				c, isC := e.(*ssa.Const)
+				if !isC || c.Value == nil {
+					continue
+				}
+				pr := b.Preds[i]
+				g := ""
+				if n := len(pr.Instrs); n > 0 {
+					g = strings.Join(guardSet(pr.Instrs[n-1]), " && ")
+				}
+				// the edge itself may be the deciding one
+				if iff := ifOf(pr); iff != nil {
+					k := 0
+					if pr.Succs[1] == b {
+						k = 1
+					}
+					if pr.Succs[0] != pr.Succs[1] {
+						if g != "" {
+							g += " && "
+						}
+						g += descCond(iff.Cond, k == 0)
+					}
+				}
+				out = append(out, guardSite{fn, "rewrite:" + c.Value.ExactString(), ph, g})
+			}
+		}
+	}
+	return out
+}
+
+// ruleRewriteDiscipline: every conditional assignment of a constant to a string or bool variable
+// (a phi that merges a constant with other values) in the packages lies at an audited site.
+func ruleRewriteDiscipline(p *Prog, r *Report, rule, prop string, pkgs map[string]bool, floor int) {
+	r.rule(rule, "Flag discipline: in the planner and parser packages of this property every place where a string or bool variable is conditionally given a constant (a phi outside loop headers that merges a constant with other values; short-circuit expressions excluded) is a row of tables/guards.tsv with the conditions under which the constant is taken (compared by the guard-table rule). A flag that is additionally cleared or set under a new condition (`not worthwhile, replace everything`, a special case widened to the un-negated spelling) changes which branch the planner takes without touching any call site.")
+	have := map[string]bool{}
+	for _, row := range readTable("guards.tsv", 5) {
+		if propListed(row[3], prop) {
+			have[row[0]+"|"+row[1]] = true
+		}
+	}
+	n := 0
+	for _, fn := range allModFuncs(p) {
+		if !pkgs[pkgOfFunc(fn)] || fn.Synthetic != "" {
+			continue
+		}
+		seen := map[string]bool{}
+		for _, gs := range rewriteSitesOf(p, fn) {
+			n++
+			k := fnDisplay(fn) + "|" + gs.Name
+			if seen[k] {
+				continue
+			}
+			seen[k] = true
+			r.add(rule, "rewrite-audited|"+k, p.ipos(gs.In), "the conditions under which a variable becomes "+gs.Name[len("rewrite:"):]+" in "+fnDisplay(fn)+" are audited (rows in tables/guards.tsv)", have[k],
+				"a flag or value is set to a constant under conditions that were never audited")
+		}
+	}
+	r.floor(rule, "conditional constant assignments", n, floor)
 }
